@@ -116,6 +116,7 @@ type chanCodec struct {
 
 	mu       sync.Mutex
 	nWritten int
+	gate     func() // if set, called at the start of every WriteMessage (lets a test hold a write)
 }
 
 func newCodecPair(addrSeenByA, addrSeenByB string) (*chanCodec, *chanCodec) {
@@ -160,6 +161,12 @@ func decodeMsg(b []byte) (*jsonrpc2.Message, error) {
 }
 
 func (c *chanCodec) WriteMessage(m *jsonrpc2.Message) error {
+	c.mu.Lock()
+	g := c.gate
+	c.mu.Unlock()
+	if g != nil {
+		g()
+	}
 	b, err := json.Marshal(m)
 	if err != nil {
 		return err
